@@ -21,6 +21,20 @@ class PFail(Exception):
         self.first_cut = False
 
 
+class PSemFail(Exception):
+    """a constant that fails to evaluate ("reported as a semantic failure"): under the reading constfail='rule' (the one
+    C06 states for actions: the RULE INVOCATION fails like a syntax mismatch) it is not caught by choices, optionals
+    or closures inside the rule, only at the rule boundary"""
+
+    def __init__(self, pos=0):
+        super().__init__(pos)
+        self.pos = pos
+
+
+# constant texts whose evaluation fails in every context (ZeroDivisionError / IndexError inside the expression)
+FAILING_CONSTS = ('1/0', '{1/0}', '[][0]')
+
+
 class RefBudget(Exception):
     pass
 
@@ -139,6 +153,7 @@ class Ref:
             ng = True   # docs/config.rst: nameguard is "implied by namechars"
         self.nameguard = ng
         self.ignorecase = as_bool(s.get('ignorecase'), False)
+        self.constfail = s.get('constfail', 'rule')   # reading of a failing constant: 'rule' | 'local'
         c = s.get('comments')
         ec = s.get('eol_comments')
         self.comments = re.compile(c) if c else None
@@ -236,7 +251,10 @@ class Ref:
         self.depth += 1
         self.max_depth = max(self.max_depth, self.depth)
         try:
-            res = self.rule_body(r, pos)
+            try:
+                res = self.rule_body(r, pos)
+            except PSemFail as e:
+                raise PFail(e.pos, 'semantic') from None
             if not seed['used']:
                 return res
             seed['res'] = res
@@ -245,7 +263,7 @@ class Ref:
                 self.lr_growth += 1
                 try:
                     nres = self.rule_body(r, pos)
-                except PFail:
+                except (PFail, PSemFail):
                     break
                 if nres[0] <= seed['res'][0]:
                     break
@@ -451,6 +469,13 @@ class Ref:
             return end
         if isinstance(e, Const):
             p = self.skip(pos)
+            if e.text.strip() in FAILING_CONSTS:
+                # the scope of a semantic failure is not fixed by the documentation: both readings are computed
+                # (settings['constfail']) and the execution is flagged
+                self.nonw.add('failing-constant')
+                if self.constfail == 'rule':
+                    raise PSemFail(p)
+                raise PFail(p, 'semantic')
             try:
                 v = pyast.literal_eval(e.text.strip())
             except (ValueError, SyntaxError):
